@@ -591,7 +591,7 @@ func writeEvidence(p Property, verif, tier string, seed uint64, st *Stats, wall 
 	}
 	exh := len(st.Exhaustive) > 0
 	cov := map[string]any{
-		"evaluations":         st.Runs + sumMap(st.Exhaustive),
+		"evaluations":         evaluations(st),
 		"distinct_nontrivial": st.DistinctCount(),
 		"rule":                p.Rule(),
 		"samples":             samples,
@@ -637,6 +637,16 @@ func writeEvidence(p Property, verif, tier string, seed uint64, st *Stats, wall 
 	os.MkdirAll(filepath.Join(verif, "evidence"), 0o755)
 	b, _ := json.MarshalIndent(ev, "", " ")
 	os.WriteFile(filepath.Join(verif, "evidence", p.ID()+".json"), b, 0o644)
+}
+
+// evaluations = executions of the system under test: a property that performs several
+// executions per run (one per reader schedule / fault plan) counts them as "executions".
+func evaluations(st *Stats) uint64 {
+	n := st.Runs
+	if x := st.Counters["executions"]; x > n {
+		n = x
+	}
+	return n + sumMap(st.Exhaustive)
 }
 
 func sumMap(m map[string]uint64) uint64 {
